@@ -116,7 +116,7 @@ package standard
 //@ modifies results[:]
 //@ ensures [ok] result == nil ==> (forall j int :: 0 <= j && j < len(data) ==> attDataOK(data[j])) && (forall j int :: 0 <= j && j < len(results) ==> results[j] == old(results[j]))
 //@ ensures [denied] result != nil ==> (forall j int :: 0 <= j && j < len(results) ==> results[j] == old(results[j]) || results[j] == core.ResultDenied)
-//@ loop #1
+//@ loop #1 over range data
 //@ invariant [range] 0 <= _n && _n <= len(data)
 //@ invariant [ok] forall j int :: 0 <= j && j < _n ==> attDataOK(data[j])
 //@ invariant [same] forall j int :: 0 <= j && j < len(results) ==> results[j] == old(results[j])
@@ -131,7 +131,7 @@ package standard
 //@ modifies checkedset, deniedset, results[offset:offset+entries], rulesData[offset:offset+entries], accounts[offset:offset+entries]
 //@ ensures-each [ok] rulesData[i] != nil ==> results[i] == old(results[i]) && prechecked(s, credentials.Client, rulesData[i], accounts[i], nameAt(accountNames, i), keyAt(pubKeys, i), ruler.ActionSignBeaconAttestation) && hastype(rulesData[i].Data, "*rules.SignBeaconAttestationData") && unbox(rulesData[i].Data, "*rules.SignBeaconAttestationData") == data[i]
 //@ ensures-each [failed] rulesData[i] == nil ==> results[i] == core.ResultDenied || results[i] == core.ResultFailed
-//@ loop #1
+//@ loop #1 over for i < offset + entries
 //@ invariant [range] offset <= i && i <= offset + entries
 //@ invariant [ok-res] forall j int :: offset <= j && j < i && rulesData[j] != nil ==> results[j] == old(results[j])
 //@ invariant [ok-acc] forall j int :: offset <= j && j < i && rulesData[j] != nil ==> accounts[j] != nil && accounts[j] == resolved(s, nameAt(accountNames, j), keyAt(pubKeys, j))
@@ -163,7 +163,7 @@ package standard
 //@ modifies results[offset:offset+entries], signatures[offset:offset+entries], each(i, offset, offset+entries, rulesResults[i] == rules.APPROVED, tokroot[pkOfAcc(accounts[i])])
 //@ ensures-each [failclosed] (results[i] == core.ResultSucceeded) <==> (signatures[i] != nil)
 //@ ensures-each [exact] results[i] == core.ResultSucceeded ==> rulesResults[i] == rules.APPROVED && validSig(pkOfAcc(accounts[i]), attRootOf(data[i]), bytes(signatures[i]))
-//@ loop #1
+//@ loop #1 over for i < offset + entries
 //@ invariant [range] offset <= i && i <= offset + entries
 //@ invariant [failclosed] forall j int :: offset <= j && j < i ==> ((results[j] == core.ResultSucceeded) <==> (signatures[j] != nil))
 //@ invariant [exact] forall j int :: offset <= j && j < i && results[j] == core.ResultSucceeded ==> rulesResults[j] == rules.APPROVED && validSig(pkOfAcc(accounts[j]), attRootOf(data[j]), bytes(signatures[j]))
@@ -188,13 +188,13 @@ package standard
 //@ ensures [len] len(result0) >= 1 && (len(result1) == 0 || len(result1) == len(result0)) && (len(data) > 0 ==> len(result0) == len(data))
 //@ ensures [failclosed] forall i int :: 0 <= i && i < len(result0) ==> ((result0[i] == core.ResultSucceeded) <==> (i < len(result1) && result1[i] != nil))
 //@ ensures [exact] forall i int :: 0 <= i && i < len(result0) && result0[i] == core.ResultSucceeded ==> i < len(data) && validSig(pkOfAcc(resolved(s, nameAt(accountNames, i), keyAt(pubKeys, i))), attRootOf(data[i]), bytes(result1[i]))
-//@ loop #1
+//@ loop #1 over range results
 //@ invariant [range] 0 <= _n && _n <= len(results) && len(results) == len(data) && fresh(results)
 //@ invariant [unknown] forall j int :: 0 <= j && j < _n ==> results[j] == core.ResultUnknown
-//@ loop #2
+//@ loop #2 over range results
 //@ invariant [range] 0 <= _n && _n <= len(results) && len(results) == len(data) && fresh(results)
 //@ invariant [denied] forall j int :: 0 <= j && j < _n ==> results[j] == core.ResultDenied
-//@ loop #3
+//@ loop #3 over range results
 //@ invariant [range] 0 <= _n && _n <= len(results)
 //@ invariant [live] forall j int :: 0 <= j && j < _n ==> results[j] == core.ResultUnknown || results[j] == core.ResultSucceeded
 
@@ -216,7 +216,7 @@ package standard
 //@ modifies checkedset, deniedset, results[offset:offset+entries], rulesData[offset:offset+entries], accounts[offset:offset+entries]
 //@ ensures-each [ok] rulesData[i] != nil ==> results[i] == old(results[i]) && prechecked(s, credentials.Client, rulesData[i], accounts[i], nameAt(accountNames, i), keyAt(pubKeys, i), ruler.ActionSign) && hastype(rulesData[i].Data, "*rules.SignData") && unbox(rulesData[i].Data, "*rules.SignData") == data[i]
 //@ ensures-each [failed] rulesData[i] == nil ==> results[i] == core.ResultDenied || results[i] == core.ResultFailed
-//@ loop #1
+//@ loop #1 over for i < offset + entries
 //@ invariant [range] offset <= i && i <= offset + entries
 //@ invariant [ok-res] forall j int :: offset <= j && j < i && rulesData[j] != nil ==> results[j] == old(results[j])
 //@ invariant [ok-acc] forall j int :: offset <= j && j < i && rulesData[j] != nil ==> accounts[j] != nil && accounts[j] == resolved(s, nameAt(accountNames, j), keyAt(pubKeys, j))
@@ -243,7 +243,7 @@ package standard
 //@ modifies results[offset:offset+entries], signatures[offset:offset+entries], each(i, offset, offset+entries, rulesResults[i] == rules.APPROVED, tokroot[pkOfAcc(accounts[i])])
 //@ ensures-each [failclosed] (results[i] == core.ResultSucceeded) <==> (signatures[i] != nil)
 //@ ensures-each [exact] results[i] == core.ResultSucceeded ==> rulesResults[i] == rules.APPROVED && validSig(pkOfAcc(accounts[i]), genRootOf(data[i]), bytes(signatures[i]))
-//@ loop #1
+//@ loop #1 over for i < offset + entries
 //@ invariant [range] offset <= i && i <= offset + entries
 //@ invariant [failclosed] forall j int :: offset <= j && j < i ==> ((results[j] == core.ResultSucceeded) <==> (signatures[j] != nil))
 //@ invariant [exact] forall j int :: offset <= j && j < i && results[j] == core.ResultSucceeded ==> rulesResults[j] == rules.APPROVED && validSig(pkOfAcc(accounts[j]), genRootOf(data[j]), bytes(signatures[j]))
@@ -266,17 +266,17 @@ package standard
 //@ ensures [failclosed] forall i int :: 0 <= i && i < len(result0) ==> ((result0[i] == core.ResultSucceeded) <==> (i < len(result1) && result1[i] != nil))
 //@ ensures [exact] forall i int :: 0 <= i && i < len(result0) && result0[i] == core.ResultSucceeded ==> i < len(data) && validSig(pkOfAcc(resolved(s, nameAt(accountNames, i), keyAt(pubKeys, i))), genRootOf(data[i]), bytes(result1[i]))
 //@ ensures [notslashable] forall i int :: 0 <= i && i < len(result0) && result0[i] == core.ResultSucceeded ==> i < len(data) && prefix4(data[i].Domain) != ATT && prefix4(data[i].Domain) != PROP
-//@ loop #1
+//@ loop #1 over range results
 //@ invariant [range] 0 <= _n && _n <= len(results) && len(results) == len(data) && fresh(results)
 //@ invariant [unknown] forall j int :: 0 <= j && j < _n ==> results[j] == core.ResultUnknown
-//@ loop #2
+//@ loop #2 over range results
 //@ invariant [range] 0 <= _n && _n <= len(results) && len(results) == len(data) && fresh(results)
 //@ invariant [denied] forall j int :: 0 <= j && j < _n ==> results[j] == core.ResultDenied
-//@ loop #3
+//@ loop #3 over range data
 //@ invariant [range] 0 <= _n && _n <= len(data)
 //@ invariant [ok] forall j int :: 0 <= j && j < _n ==> genDataOK(data[j])
 //@ invariant [unknown] forall j int :: 0 <= j && j < len(results) ==> results[j] == core.ResultUnknown
-//@ loop #4
+//@ loop #4 over range results
 //@ invariant [range] 0 <= _n && _n <= len(results)
 //@ invariant [live] forall j int :: 0 <= j && j < _n ==> results[j] == core.ResultUnknown || results[j] == core.ResultSucceeded
 
@@ -290,7 +290,7 @@ package standard
 //@ requires [options] forall i int :: 0 <= i && i < len(params) ==> params[i] != nil
 //@ ensures [err] result1 != nil ==> result0 == nil
 //@ ensures [ok] result1 == nil ==> result0 != nil && result0.monitor != nil && result0.checker != nil && result0.fetcher != nil && result0.ruler != nil && result0.unlocker != nil
-//@ loop #1
+//@ loop #1 over range params
 //@ invariant [range] 0 <= _n && _n <= len(params)
 
 //@ func New
